@@ -28,7 +28,8 @@ def check(index, ctx):
             # prefix-sum slicing of the stacked Jacobian
             for e in _pipe.evs(res, "unpack"):
                 if "_extract_sub_matrices" in e["function"] or (e.get("lo_note") or "").startswith("prefix-sum"):
-                    ok = e.get("lo_note") == "prefix-sum-cur" and e.get("hi_note") == "prefix-sum-next" and e["layout"] is not None and e["layout"] == e["loop_order"]
+                    literal = e["layout"] is not None and "literal-sequence" in e["layout"] and e["loop_order"] in (None, "None")  # concrete sizes for a concrete sequence
+                    ok = e.get("lo_note") == "prefix-sum-cur" and e.get("hi_note") == "prefix-sum-next" and e["layout"] is not None and (e["layout"] == e["loop_order"] or literal)
                     ctx.require(ok, "G", _layout.key(e), "columns [sum of lengths before key, sum including key) of the axis packed over the same inputs",
                                 f"column block bounds are ({e.get('lo_note')}, {e.get('hi_note')}) over {e['loop_order']} while the axis is packed over {e['layout']}", e["loc"])
             ag = _pipe.evs(res, "autograd")
